@@ -129,6 +129,10 @@ class Frame(object):
             if data is not None:
                 assert data.shape == self.shape
                 self.data = np.copy(data)
+                if not np.issubdtype(self.data.dtype, np.inexact):
+                    # Integer (or bool) data could not take the floating point noise and 
+                    # signals that are added in place later on
+                    self.data = self.data.astype(float)
             else:
                 self.data = np.zeros(self.shape)
         elif waterfall:
@@ -172,7 +176,10 @@ class Frame(object):
             self.data = waterfall_utils.get_data(self.waterfall)
             if not self.ascending:
                 self.data = self.data[:, ::-1]
-            if not own_data:
+            if not np.issubdtype(self.data.dtype, np.inexact):
+                # 8- or 16-bit files come in as integers: hold them as floats (see above)
+                self.data = self.data.astype(float)
+            elif not own_data:
                 self.data = np.copy(self.data)
         else:
             raise ValueError(f'Frame must be provided dimensions or an '
